@@ -112,7 +112,8 @@ def mandy(ctx, variant, d, m, fam, cplx_y=False):
 
 # ------------------------------------------------------------------------------ kernel
 @scenario('C16', 'mandy_kb', lambda tier: [{'d': d, 'm': m, 'ny': ny, 'mix': mix} for d in (1, 2) for m in (1, 2, 3) for ny in (1, 2)
-                                            for mix in ([['id', 'mono2']], [['const', 'id'], ['sin', 'id']]) if not (m == 3 and ny == 2 and tier == 'quick')])
+                                            for mix in ([['id', 'mono2']], [['const', 'id'], ['sin', 'id']], [['const', 'id', 'mono2'], ['sin', 'id']], [['id'], ['const', 'id', 'sin'], ['id', 'mono2']])
+                                            if not (m == 3 and ny == 2 and tier == 'quick') and not (len(mix) == 3 and (d == 2 or m == 3))])
 @unchanged_inputs('x', 'y')
 def mandy_kb(ctx, d, m, ny, mix):
     """kernel-based MANDy: solver input == (Gram matrix, y^T), on both branches of the conditioning test; z reproduces y on the training data by the solve contract"""
